@@ -27,6 +27,8 @@ try:        # the unparser-side theorems are delivered by the unparse builder; u
     import framework
     if os.path.exists(os.path.join(framework.LEAN, 'CalmVerif', 'Props', 'C08.lean')):
         SPEC['props'] = ['CalmVerif.Props.C11', 'CalmVerif.Props.C08']
+    if os.path.exists(os.path.join(framework.LEAN, 'CalmVerif', 'Props', 'C08end.lean')):
+        SPEC['props'].append('CalmVerif.Props.C08end')      # capstone: C11 x C08 x C09 composed on the models
 except Exception:       # pragma: no cover
     pass
 
